@@ -34,5 +34,7 @@ Deliverables, all in /tmp/mut/{tag}.out/ :
   patch.diff  — `git -C /tmp/mut/{tag} diff -- serde_arrow/src`
   meta.json   — {{"property": "{pid}", "style": "{style}", "summary": "<what was changed>", "why_preserving": "<argument that the property and observable behaviour are preserved; for styles wording/unconstrained: exactly WHAT observable thing changed>", "files_changed": [...]}}
 
+NEVER use `git stash` (the stash is shared between all worktrees of this repository and other agents work in parallel); to test the unchanged tree save your diff to a file, `git checkout -- serde_arrow/src`, test, `git apply` the file.  Note: 2 integration tests (tests::tensors::*) need python's pyarrow and fail in this sandbox on the unchanged tree too; ignore them.
+
 Leave the worktree with the patch applied.  When done, reply with a 4-line summary.  Be economical: read the anchored files, pick a site, make the change, run the suite.
 """)
